@@ -21,7 +21,7 @@ FxDefault == [null |-> FALSE, gain |-> 3, level |-> 11, type |-> 0, voice |-> <<
 Default == [pc |-> 64, pi |-> 5, pn |-> 0, pf |-> 2, pg |-> 4, pt |-> FALSE, po |-> 1, ps |-> <<97, 98, 99>>, preset |-> 0, dep |-> 10, mode |-> 0, dep2 |-> 1, chain |-> 0, tg |-> FALSE, dep3 |-> 5,
             ai |-> <<3, 3, 3>>, af |-> <<1, 1, 1>>, at |-> <<FALSE, FALSE>>, al |-> <<0, 0, 0, 0, 0, 0, 0, 0>>,
             fx_on |-> FALSE, fx |-> [null |-> TRUE], sub_on |-> TRUE, sub |-> SubDefault,
-            subs |-> <<SubDefault, SubDefault>>, palloc |-> FALSE, psub |-> NullSub]
+            subs |-> <<SubDefault, SubDefault>>, palloc |-> FALSE, psub |-> NullSub, preset_b |-> 0, osc |-> [gain |-> 5], osc_type |-> 0]
 PresetDefault(p) == CASE p = 0 -> 10 [] p = 1 -> 20 [] OTHER -> 30
 PresetDefault2(p) == CASE p = 0 -> 1 [] p = 1 -> 2 [] OTHER -> 3
 FxLevelDefault(t) == CASE t = 0 -> 11 [] t = 1 -> 22 [] OTHER -> 33
@@ -37,6 +37,7 @@ Param(addr) ==
   CASE addr = "/pc" -> Scalar("pc", "c", 0, 127) [] addr = "/pi" -> Scalar("pi", "i", 0 - 10, 1000) [] addr = "/pn" -> Scalar("pn", "i", 0 - NoBound, NoBound)
     [] addr = "/pf" -> Scalar("pf", "f", 0 - 10, 41) [] addr = "/pg" -> Scalar("pg", "f", 0 - NoBound, 32) [] addr = "/pt" -> Scalar("pt", "T", 0, 0)
     [] addr = "/po" -> Scalar("po", "o", 0 - NoBound, NoBound) [] addr = "/ps" -> Scalar("ps", "s", 0, 7) [] addr = "/preset" -> Scalar("preset", "i", 0, 2)
+    [] addr = "/preset_b" -> Scalar("preset_b", "i", 0, 2) [] addr = "/osc_type" -> Scalar("osc_type", "i", 0, 2) [] addr = "/osc/gain" -> [where |-> "osc", f |-> "gain", i |-> 0, j |-> 0, kind |-> "i", lo |-> 0, hi |-> 100]
     [] addr = "/dep" -> Scalar("dep", "i", 0, 100) [] addr = "/mode" -> Scalar("mode", "i", 0, 2) [] addr = "/dep2" -> Scalar("dep2", "i", 0, 100) [] addr = "/chain" -> Scalar("chain", "i", 0, 100) [] addr = "/tg" -> Scalar("tg", "T", 0, 0) [] addr = "/dep3" -> Scalar("dep3", "i", 0, 100)
     [] addr = "/sub_on" -> Scalar("sub_on", "T", 0, 0) [] addr = "/palloc" -> Scalar("palloc", "T", 0, 0)
     [] addr = "/ai0" -> Elem("ai", 1, "I", 0, 100) [] addr = "/ai1" -> Elem("ai", 2, "I", 0, 100) [] addr = "/ai2" -> Elem("ai", 3, "I", 0, 100)
@@ -57,17 +58,17 @@ Param(addr) ==
     [] addr = "/subs1/sa0" -> SubElem("subs", 2, 1) [] addr = "/subs1/sa1" -> SubElem("subs", 2, 2) [] addr = "/psub/sa0" -> SubElem("psub", 0, 1) [] addr = "/psub/sa1" -> SubElem("psub", 0, 2)
 Addresses == << "/pc", "/pi", "/pn", "/pf", "/pg", "/pt", "/po", "/ps", "/preset", "/dep", "/mode", "/dep2", "/chain", "/tg", "/dep3", "/ai0", "/ai1", "/ai2", "/af0", "/af1", "/af2", "/at0", "/at1", "/al0", "/al1", "/al2", "/al3", "/al4", "/al5", "/al6", "/al7", "/fx_on", "/fx/gain", "/fx/level", "/fx/type", "/fx/voice0/vol", "/fx/voice1/vol",
                 "/sub_on", "/sub/si", "/sub/sf", "/sub/st", "/subs0/si", "/subs0/sf", "/subs0/st", "/subs1/si", "/subs1/sf", "/subs1/st",
-                "/palloc", "/psub/si", "/psub/sf", "/psub/st",
+                "/palloc", "/psub/si", "/psub/sf", "/psub/st", "/preset_b", "/osc/gain", "/osc_type",
                 "/sub/sa0", "/sub/sa1", "/subs0/sa0", "/subs0/sa1", "/subs1/sa0", "/subs1/sa1", "/psub/sa0", "/psub/sa1" >>
 \* ------------------------------------------------------------------ state access
 Exists(s, p) == IF p.where = "psub" THEN ~ s.psub.null ELSE IF p.where \in {"fx", "fxv"} THEN ~ s.fx.null ELSE TRUE                 \* the pointer sub-tree exists only while allocated
 GetV(s, p) == CASE p.where = "top" -> s[p.f] [] p.where = "arr" -> s[p.f][p.i]
-                [] p.where = "fx" -> s.fx[p.f] [] p.where = "fxv" -> s.fx.voice[p.i][p.f]
+                [] p.where = "osc" -> s.osc[p.f] [] p.where = "fx" -> s.fx[p.f] [] p.where = "fxv" -> s.fx.voice[p.i][p.f]
                 [] p.where = "sub" -> (IF p.j = 0 THEN s.sub[p.f] ELSE s.sub[p.f][p.j])
                 [] p.where = "subs" -> (IF p.j = 0 THEN s.subs[p.i][p.f] ELSE s.subs[p.i][p.f][p.j])
                 [] p.where = "psub" -> (IF p.j = 0 THEN s.psub[p.f] ELSE s.psub[p.f][p.j])
 PutV(s, p, v) == CASE p.where = "top" -> [s EXCEPT ![p.f] = v] [] p.where = "arr" -> [s EXCEPT ![p.f][p.i] = v]
-                   [] p.where = "fx" -> [s EXCEPT !.fx[p.f] = v] [] p.where = "fxv" -> [s EXCEPT !.fx.voice[p.i][p.f] = v]
+                   [] p.where = "osc" -> [s EXCEPT !.osc[p.f] = v] [] p.where = "fx" -> [s EXCEPT !.fx[p.f] = v] [] p.where = "fxv" -> [s EXCEPT !.fx.voice[p.i][p.f] = v]
                    [] p.where = "sub" -> (IF p.j = 0 THEN [s EXCEPT !.sub[p.f] = v] ELSE [s EXCEPT !.sub[p.f][p.j] = v])
                    [] p.where = "subs" -> (IF p.j = 0 THEN [s EXCEPT !.subs[p.i][p.f] = v] ELSE [s EXCEPT !.subs[p.i][p.f][p.j] = v])
                    [] p.where = "psub" -> (IF p.j = 0 THEN [s EXCEPT !.psub[p.f] = v] ELSE [s EXCEPT !.psub[p.f][p.j] = v])
@@ -88,6 +89,7 @@ Admits(p, ty) == CASE p.kind = "c" -> ty = "c" [] p.kind \in {"i", "I"} -> ty = 
 \* side effects the application attaches to two of its ports (rChangeCb)
 After(s, addr, changed) ==
   IF addr = "/preset" THEN [s EXCEPT !.dep = PresetDefault(s.preset), !.mode = 0, !.dep2 = PresetDefault2(s.preset), !.chain = 0, !.dep3 = PresetDefault3(s.preset)]   \* a preset message re-initialises its dependants and the mode
+  ELSE IF addr = "/osc_type" THEN [s EXCEPT !.osc.gain = 5]                                                                     \* every message to the type re-initialises the oscillator
   ELSE IF addr = "/fx/type" THEN [s EXCEPT !.fx.level = FxLevelDefault(s.fx.type)]
   ELSE IF addr = "/tg" /\ changed THEN [s EXCEPT !.dep3 = PresetDefault3(s.preset)]      \* (a toggle port runs its change callback only when the value changes)
   ELSE IF addr = "/mode" THEN [s EXCEPT !.dep2 = PresetDefault2(s.preset), !.chain = 0]                                               \* a mode message re-initialises ITS dependants
@@ -104,10 +106,10 @@ EvType(p) == CASE p.kind = "c" -> "c" [] p.kind \in {"i", "I", "o"} -> "i" [] p.
 \* not answer), queries every concrete leaf address in table order - arrays and enumerated sub-trees expanded - and appends each
 \* reply to a bundle with a fixed time tag.  The deserialiser dispatches the elements in that order into the given object.
 SubSerAddrs(c) == << c \o "/si", c \o "/sf", c \o "/st", c \o "/sa0", c \o "/sa1" >>
-SerAddrs == << "/pc", "/pi", "/pn", "/pf", "/pg", "/pt", "/po", "/ps", "/preset", "/dep", "/mode", "/dep2", "/chain", "/tg", "/dep3",
+SerAddrs == << "/pc", "/pi", "/pn", "/pf", "/pg", "/pt", "/po", "/ps", "/preset_b", "/preset", "/dep", "/mode", "/dep2", "/chain", "/tg", "/dep3",
                "/ai0", "/ai1", "/ai2", "/af0", "/af1", "/af2", "/at0", "/at1", "/al0", "/al1", "/al2", "/al3", "/al4", "/al5", "/al6", "/al7",
                "/fx_on", "/fx/gain", "/fx/level", "/fx/type", "/fx/voice0/vol", "/fx/voice1/vol", "/sub_on" >>
-            \o SubSerAddrs("/sub") \o SubSerAddrs("/subs0") \o SubSerAddrs("/subs1") \o << "/palloc" >> \o SubSerAddrs("/psub")
+            \o SubSerAddrs("/sub") \o SubSerAddrs("/subs0") \o SubSerAddrs("/subs1") \o << "/palloc" >> \o SubSerAddrs("/psub") \o << "/osc/gain", "/osc_type" >>
 SerTimeTag == << 57005, 48879, 2571, 3085 >>                                    \* 0xdeadbeef0a0b0c0d as four 16-bit limbs
 \* the elements: address, the type the port answers with, the stored value
 SerElems(s) == LET live == SelectSeq(SerAddrs, LAMBDA a : Exists(s, Param(a))) IN
@@ -117,8 +119,8 @@ RECURSIVE ApplySets(_, _)
 ApplySets(s, es) == IF es = <<>> THEN s ELSE ApplySets(SetState(s, Head(es).addr, Head(es).ty, Head(es).v), Tail(es))
 Deserialized(s) == ApplySets(Default, SerElems(s))
 \* the design law the library's own comment hints at ("replayed to get an object to a previous state"): replaying restores the state
-\* unless a port stands in the table BEFORE a port whose change callback re-initialises it (here: /fx/level before /fx/type)
-SerRoundTripHolds(s) == s.fx.null \/ s.fx.level = FxLevelDefault(s.fx.type)
+\* unless a port stands in the table BEFORE a port whose change callback re-initialises it (here: /fx/level before /fx/type, /osc/gain before /osc_type)
+SerRoundTripHolds(s) == (s.fx.null \/ s.fx.level = FxLevelDefault(s.fx.type)) /\ s.osc.gain = 5
 \* 32-bit two's complement and IEEE-754 single images as two 16-bit limbs (floats are q/4 with |q| < 2^24, hence exact)
 IntLimbs(v) == IF v >= 0 THEN << v \div 65536, v % 65536 >> ELSE << 65535 - ((0 - v - 1) \div 65536), 65535 - ((0 - v - 1) % 65536) >>
 RECURSIVE Log2Floor(_)
@@ -157,7 +159,7 @@ ApplyMsg(s, m) == LET p == Param(m.addr) IN SetState(s, m.addr, MsgTy(p, m.v), I
 RECURSIVE ApplyAll(_, _)
 ApplyAll(s, ms) == IF ms = <<>> THEN s ELSE ApplyAll(ApplyMsg(s, Head(ms)), Tail(ms))
 \* a port that another port's default, enablement or declared dependency refers to comes first
-Rank(addr) == IF addr \in {"/preset", "/sub_on", "/palloc", "/tg", "/fx_on"} THEN 0 ELSE IF addr \in {"/mode", "/fx/type"} THEN 1 ELSE 2
+Rank(addr) == IF addr \in {"/preset", "/sub_on", "/palloc", "/tg", "/fx_on", "/osc_type"} THEN 0 ELSE IF addr \in {"/mode", "/fx/type"} THEN 1 ELSE 2
 RECURSIVE Concat(_)
 Concat(ss) == IF ss = <<>> THEN <<>> ELSE Head(ss) \o Concat(Tail(ss))
 RECURSIVE SetToSeq(_)
